@@ -166,6 +166,37 @@ theorem fromBipartiteGraph_perm (G G' : BGraph) (hw : GWF G) (hv : G.verts.Perm 
     · intro n
       rw [fromBipartiteGraph_nodes hr hw, fromBipartiteGraph_nodes hr' hw', hN]
 
+/-- the directed reader likewise does not depend on the order in which the vertices were inserted nor on the
+    order in which networkx lists the arcs: two directed graphs with the same vertices (a permutation of the vertex
+    list) and the same arcs (as a set; the orientation of an arc is data here) are accepted or rejected together
+    and give the same nodes and the same incidences with their direction -/
+theorem fromBipartiteGraphDi_perm (G G' : BGraph) (hw : GWF G) (hv : G.verts.Perm G'.verts)
+    (he : ∀ u v, (u, v) ∈ G.edges ↔ (u, v) ∈ G'.edges) :
+    ((∃ r, fromBipartiteGraphDi G = .ok r) ↔ (∃ r', fromBipartiteGraphDi G' = .ok r')) ∧
+    (∀ r r', fromBipartiteGraphDi G = .ok r → fromBipartiteGraphDi G' = .ok r' →
+       (∀ n e d, DInc r n e d ↔ DInc r' n e d) ∧ (∀ n, n ∈ r.nodes ↔ n ∈ r'.nodes)) := by
+  have hes : ∀ u v, ((u, v) ∈ G.edges ∨ (v, u) ∈ G.edges) ↔ ((u, v) ∈ G'.edges ∨ (v, u) ∈ G'.edges) :=
+    fun u v => by rw [he u v, he v u]
+  have hes' : ∀ u v, ((u, v) ∈ G'.edges ∨ (v, u) ∈ G'.edges) ↔ ((u, v) ∈ G.edges ∨ (v, u) ∈ G.edges) :=
+    fun u v => (hes u v).symm
+  have hw' := gwf_transfer hw hv hes
+  have hN : ∀ x, x ∈ nodeVerts G ↔ x ∈ nodeVerts G' := fun x => by
+    rw [mem_nodeVerts, mem_nodeVerts]; exact hv.mem_iff
+  have hE : ∀ x, x ∈ edgeVerts G ↔ x ∈ edgeVerts G' := fun x => by
+    rw [mem_edgeVerts, mem_edgeVerts]; exact hv.mem_iff
+  constructor
+  · rw [fromBipartiteGraphDi_ok_iff, fromBipartiteGraphDi_ok_iff]
+    exact ⟨fun h => ok_transfer hw hv hes h.1 h.2, fun h => ok_transfer hw' hv.symm hes' h.1 h.2⟩
+  · intro r r' hr hr'
+    constructor
+    · intro n e d
+      rw [fromBipartiteGraphDi_inc hr hw, fromBipartiteGraphDi_inc hr' hw', hN, hE]
+      cases d
+      · simp only [he n e]
+      · simp only [he e n]
+    · intro n
+      rw [fromBipartiteGraphDi_nodes hr hw, fromBipartiteGraphDi_nodes hr' hw', hN]
+
 /-- bipartite graph with index maps: `from_bipartite_graph(to_bipartite_graph(H))` is accepted and, read through
     the index maps `itn` / `ite`, has exactly the source's labelled incidences; its nodes are the source's nodes
     (isolated ones included) -/
@@ -305,7 +336,7 @@ theorem hypergraphDict_rt (cast : PyId → String) (un ue : String → Except Er
     simp only [e1, e2, e3]
   · -- the construction
     unfold buildHD
-    simp only [List.foldl_map]
+    simp only [List.foldl_map, hdNodeRec_eq]
     have g0 : Attrs.update [] (Attrs.update [] a.gattr) = a.gattr := by
       rw [attrs_update_nil wg, attrs_update_nil wg]
     generalize ha0 : ({ emptyANet .hg with gattr := Attrs.update [] (Attrs.update [] a.gattr) } : ANet) = a0
@@ -348,16 +379,21 @@ theorem hypergraphDict_rt (cast : PyId → String) (un ue : String → Except Er
       rw [this, attrs_update_nil (we e he)]
 
 
-/-- colliding string casts are refused with the library's error (`XGIError`) -/
-theorem hypergraphDict_collision (cast : PyId → String) (a : ANet)
-    (h : ¬ (a.net.nodes.map cast).Nodup ∨ ¬ (a.net.edgeIds.map cast).Nodup) :
-    toHypergraphDict cast a = .error .lib := by
-  unfold toHypergraphDict
-  by_cases h1 : (a.net.nodes.map cast).Nodup
-  · rcases h with h | h
-    · exact absurd h1 h
-    · simp [h1, h]
-  · simp [h1]
+/-- the hypotheses of `hypergraphDict_rt` hold for the concrete casts the driver runs (`strCast` = Python `str`,
+    `uncastInt` = `nodetype=int`, `uncastStr` = `nodetype=None`), in all four combinations node IDs int | str ×
+    edge IDs int | str: for a well-formed network whose node IDs all have type `tn` and whose edge IDs all have
+    type `te`, `from_hypergraph_dict(to_hypergraph_dict(H), nodetype=tn, edgetype=te)` succeeds and keeps the node
+    list, the edge IDs, the labelled incidences and all three levels of attributes.  (No sortability hypothesis:
+    members of one type can be sorted.) -/
+theorem hypergraphDict_rt_int_str (tn te : IdType) (a : ANet) (hw : AWF a)
+    (hn : ∀ x ∈ a.net.nodes, tn.Holds x) (he : ∀ e ∈ a.net.edgeIds, te.Holds e) :
+    ∃ d r, toHypergraphDict strCast a = .ok d ∧ fromHypergraphDict tn.uncast te.uncast d = .ok r ∧
+      r.net.nodes = a.net.nodes ∧ r.net.edgeIds = a.net.edgeIds ∧
+      (∀ n e, Inc r.net n e ↔ Inc a.net n e) ∧
+      r.gattr = a.gattr ∧ (∀ n ∈ a.net.nodes, r.nattr n = a.nattr n) ∧ (∀ e ∈ a.net.edgeIds, r.eattr e = a.eattr e) :=
+  hypergraphDict_rt strCast tn.uncast te.uncast a hw
+    (fun x hx => uncast_strCast tn x (hn x hx)) (fun e h => uncast_strCast te e (he e h))
+    (fun p hp => sortIds_isSome_of_holds tn p.2 (fun x hx => hn x ((hw.net.2.2 p hp).2 x hx)))
 
 /-! ### HIF dict -/
 
@@ -381,7 +417,7 @@ theorem hif_rt (a : ANet) (hw : AWF a) :
           (a.net.nodes.filter (fun n => isolated a.net n || a.nattr n ≠ [])))
         ((a.net.edges.filter (fun p => p.2 = [] || a.eattr p.1 ≠ [])).map (·.1)) := by
     unfold fromHifU toHif
-    simp only [List.foldl_map, hifNodeStep_eq, recOf_getD]
+    simp only [List.foldl_map, hifNodeRec_eq, hifEdgeRec_eq, recOf_getD]
     rw [aLinkFold_eq]
     rfl
   rw [hform]
@@ -496,7 +532,7 @@ theorem hifDi_rt (a : ADiNet) (hw : ADWF a) :
           (a.net.nodes.filter (fun n => dIsolated a.net n || a.nattr n ≠ [])))
         ((a.net.edges.filter (fun p => (p.2.1 = [] && p.2.2 = []) || a.eattr p.1 ≠ [])).map (·.1)) := by
     unfold fromHifD toHifDi
-    simp only [List.foldl_map, hifDNodeStep_eq, recOf_getD, Option.getD_some]
+    simp only [List.foldl_map, dHifNodeRec_eq, dHifEdgeRec_eq, recOf_getD, Option.getD_some]
     rw [dLinkFold_eq]
     rfl
   rw [hform]
@@ -593,23 +629,18 @@ theorem hifDi_rt (a : ADiNet) (hw : ADWF a) :
       · exact absurd ⟨p, hp, rfl, Or.inr h⟩ hf
 
 /-- HIF keeps the network class: a Hypergraph comes back as a Hypergraph, a SimplicialComplex as a
-    SimplicialComplex (through `SimplicialComplex(H)`), a DiHypergraph as a DiHypergraph -/
-theorem hif_class :
-    (∀ a : ANet, a.cls ≠ .dhg → ∃ r, fromHif (toHif a) = .inl r ∧ r.cls = a.cls) ∧
-    (∀ a : ADiNet, ∃ r, fromHif (toHifDi a) = .inr r) := by
-  constructor
-  · intro a ha
-    cases hc : a.cls with
-    | dhg => exact absurd hc ha
-    | hg =>
-      refine ⟨fromHifU (toHif a), ?_, ?_⟩
-      · unfold fromHif; simp [toHif, hc]
-      · exact cls_fromHifU _
-    | sc =>
-      refine ⟨toSimplicialComplex (fromHifU (toHif a)), ?_, cls_toSimplicialComplex _⟩
-      unfold fromHif; simp [toHif, hc]
-  · intro a
-    exact ⟨fromHifD (toHifDi a), by unfold fromHif; simp [toHifDi]⟩
+    SimplicialComplex (through `SimplicialComplex(H)`); the directed case is `hif_class_directed` (definitional,
+    C10/Lemmas.lean) -/
+theorem hif_class (a : ANet) (ha : a.cls ≠ .dhg) : ∃ r, fromHif (toHif a) = .inl r ∧ r.cls = a.cls := by
+  cases hc : a.cls with
+  | dhg => exact absurd hc ha
+  | hg =>
+    refine ⟨fromHifU (toHif a), ?_, ?_⟩
+    · unfold fromHif; simp [toHif, hc]
+    · exact cls_fromHifU _
+  | sc =>
+    refine ⟨toSimplicialComplex (fromHifU (toHif a)), ?_, cls_toSimplicialComplex _⟩
+    unfold fromHif; simp [toHif, hc]
 
 /-! ### class-to-class constructors -/
 
@@ -639,9 +670,6 @@ theorem ofClass_members_dhg (a : ADiNet) (hw : ADWF a) :
     ∃ r, ofClass (.inr a) .dhg = .ok (.inr r) ∧ r.net.nodes = a.net.nodes ∧ r.net.edges = a.net.edges ∧
       r.gattr = a.gattr ∧ (∀ n ∈ a.net.nodes, r.nattr n = a.nattr n) ∧ (∀ e ∈ dEdgeIds a.net, r.eattr e = a.eattr e) :=
   ⟨toDiHypergraph a, rfl, toDiHypergraph_spec a hw⟩
-
-/-- no conversion from an undirected network to a directed one is offered (`XGIError`) -/
-theorem ofClass_dhg_of_undirected (a : ANet) : ofClass (.inl a) .dhg = .error .lib := rfl
 
 /-- `SimplicialComplex(N)` for a Hypergraph / SimplicialComplex `N` (network attributes copied — proposed fix):
     same node list, node and network attributes; every non-empty source edge's member set is a simplex; the
@@ -681,15 +709,21 @@ theorem ofClass_members_sc_directed (a : ADiNet) (hw : ADWF a) :
       exact ⟨ha, p', hp', hf⟩
 
 /-- HIF for a simplicial complex (`network-type: asc`; finishes with `SimplicialComplex(H)`, network attributes
-    copied — proposed fix): the class, the node set, the node and network attributes are kept; every source
-    simplex is a simplex of the result; the result is closed; every simplex of the result lies inside a source
-    simplex -/
-theorem hif_rt_sc (a : ANet) (hw : AWF a) (hc : a.cls = .sc) :
+    copied — proposed fix).  The source is a simplicial complex as xgi stores one (`SCWF`: no empty simplex, no two
+    simplices with the same member set).  The class, the node set, the node and network attributes are kept; every
+    source simplex is a simplex of the result; the result is closed; every simplex of the result lies inside a
+    source simplex; **every source simplex keeps its ID, its member set and its attributes**; and when the source
+    is closed under faces (`SCClosed`, which `add_simplex` maintains) nothing else is created: the edge-ID set and
+    the labelled incidences of the result are exactly the source's -/
+theorem hif_rt_sc (a : ANet) (hw : AWF a) (hc : a.cls = .sc) (hsc : SCWF a.net) :
     ∃ r, fromHif (toHif a) = .inl r ∧ r.cls = .sc ∧ (∀ n, n ∈ r.net.nodes ↔ n ∈ a.net.nodes) ∧ r.gattr = a.gattr ∧
       (∀ n ∈ a.net.nodes, r.nattr n = a.nattr n) ∧
       (∀ p ∈ a.net.edges, p.2 ≠ [] → hasSimplex r.net.edges p.2 = true) ∧
       (∀ q ∈ r.net.edges, ∀ f : List PyId, f.Sublist q.2 → 2 ≤ f.length → hasSimplex r.net.edges f = true) ∧
-      (∀ q ∈ r.net.edges, ∃ p ∈ a.net.edges, ∀ x ∈ q.2, x ∈ p.2) := by
+      (∀ q ∈ r.net.edges, ∃ p ∈ a.net.edges, ∀ x ∈ q.2, x ∈ p.2) ∧
+      (∀ p ∈ a.net.edges, ∃ q ∈ r.net.edges, q.1 = p.1 ∧ ∀ x, x ∈ q.2 ↔ x ∈ p.2) ∧
+      (∀ e ∈ a.net.edgeIds, r.eattr e = a.eattr e) ∧
+      (SCClosed a.net → (∀ e, e ∈ r.net.edgeIds ↔ e ∈ a.net.edgeIds) ∧ (∀ n e, Inc r.net n e ↔ Inc a.net n e)) := by
   obtain ⟨r1, r2, r3, r4, r5, r6, r7, _⟩ := hif_rt a hw
   have hw' : AWF (fromHifU (toHif a)) := by
     refine ⟨r7, by rw [r4]; exact hw.g, fun n hn => ?_, fun e he => ?_⟩
@@ -705,24 +739,62 @@ theorem hif_rt_sc (a : ANet) (hw : AWF a) (hc : a.cls = .sc) :
     refine ⟨p, hp, hpe, fun x => ?_⟩
     rw [← inc_iff_of_wf r7 hp', ← inc_iff_of_wf hw.net hp, hpe]
     exact r3 x p'.1
-  refine ⟨toSimplicialComplex (fromHifU (toHif a)), by unfold fromHif; simp [toHif, hc], t1, ?_, by rw [t3, r4], ?_, ?_, t6, ?_⟩
-  · intro n; rw [t2]; exact r1 n
-  · intro n hn; rw [t4 n ((r1 n).mpr hn)]; exact r5 n hn
-  · intro p hp hne
+  -- and conversely
+  have hsame' : ∀ p ∈ a.net.edges, ∃ p' ∈ (fromHifU (toHif a)).net.edges, p'.1 = p.1 ∧ ∀ x, x ∈ p'.2 ↔ x ∈ p.2 := by
+    intro p hp
     have : p.1 ∈ (fromHifU (toHif a)).net.edgeIds := (r2 _).mpr (by unfold Net.edgeIds; rw [List.mem_map]; exact ⟨p, hp, rfl⟩)
     unfold Net.edgeIds at this; rw [List.mem_map] at this
     obtain ⟨p', hp', hpe⟩ := this
-    have hmem : ∀ x, x ∈ p'.2 ↔ x ∈ p.2 := by
-      intro x
-      rw [← inc_iff_of_wf r7 hp', ← inc_iff_of_wf hw.net hp, hpe]
-      exact r3 x p.1
-    have hne' : p'.2 ≠ [] := by
-      intro h
-      cases hm : p.2 with
-      | nil => exact hne hm
+    refine ⟨p', hp', hpe, fun x => ?_⟩
+    rw [← inc_iff_of_wf r7 hp', ← inc_iff_of_wf hw.net hp, hpe]
+    exact r3 x p.1
+  -- the intermediate hypergraph is a stored simplicial complex too
+  have hsc' : SCWF (fromHifU (toHif a)).net := by
+    constructor
+    · intro p' hp' h0
+      obtain ⟨p, hp, _, hm⟩ := hsame p' hp'
+      cases hms : p.2 with
+      | nil => exact hsc.ne p hp hms
       | cons x t =>
-        have : x ∈ p'.2 := (hmem x).mpr (by rw [hm]; simp)
-        rw [h] at this; simp at this
+        have : x ∈ p'.2 := (hm x).mpr (by rw [hms]; simp)
+        rw [h0] at this; simp at this
+    · intro p' hp' q' hq' hs
+      obtain ⟨p, hp, hpe, hm⟩ := hsame p' hp'
+      obtain ⟨q, hq, hqe, hmq⟩ := hsame q' hq'
+      rw [sameSet_iff] at hs
+      have : p = q := hsc.distinct p hp q hq ((sameSet_iff _ _).mpr (fun z => by rw [← hm z, hs z, hmq z]))
+      exact eq_of_key_eq r7.2.1 hp' hq' (by rw [← hpe, ← hqe, this])
+  obtain ⟨⟨extra, k1⟩, k2, k3⟩ := toSimplicialComplex_kept _ hw' hsc'
+  -- closure is transported (faces are sublists in the order of the stored member list, which HIF may permute)
+  have hcl' : SCClosed a.net → SCClosed (fromHifU (toHif a)).net := by
+    intro hcl p' hp' f hf
+    obtain ⟨p, hp, _, hm⟩ := hsame p' hp'
+    rw [mem_subfaces] at hf
+    obtain ⟨hsub, hlen2, hlt⟩ := hf
+    have hp'd : p'.2.Nodup := (r7.2.2 p' hp').1
+    have hpd : p.2.Nodup := (hw.net.2.2 p hp).1
+    have hfd : f.Nodup := List.Nodup.sublist hsub hp'd
+    have hf'd : (p.2.filter (fun x => decide (x ∈ f))).Nodup := List.Nodup.sublist List.filter_sublist hpd
+    have hmem : ∀ x, x ∈ p.2.filter (fun x => decide (x ∈ f)) ↔ x ∈ f := by
+      intro x
+      simp only [List.mem_filter, decide_eq_true_eq]
+      exact ⟨fun h => h.2, fun h => ⟨(hm x).mp (hsub.subset h), h⟩⟩
+    have hl1 : (p.2.filter (fun x => decide (x ∈ f))).length = f.length :=
+      ((List.perm_ext_iff_of_nodup hf'd hfd).mpr hmem).length_eq
+    have hl2 : p'.2.length = p.2.length := ((List.perm_ext_iff_of_nodup hp'd hpd).mpr hm).length_eq
+    have := hcl p hp (p.2.filter (fun x => decide (x ∈ f)))
+      ((mem_subfaces _ _).mpr ⟨List.filter_sublist, by rw [hl1]; exact hlen2, by rw [hl1, ← hl2]; exact hlt⟩)
+    rw [hasSimplex_iff] at this ⊢
+    obtain ⟨q, hq, hqm⟩ := this
+    obtain ⟨q', hq', _, hmq⟩ := hsame' q hq
+    exact ⟨q', hq', fun z => by rw [hmq z, hqm z, hmem z]⟩
+  refine ⟨toSimplicialComplex (fromHifU (toHif a)), by unfold fromHif; simp [toHif, hc], t1, ?_, by rw [t3, r4], ?_, ?_, t6, ?_,
+    ?_, ?_, ?_⟩
+  · intro n; rw [t2]; exact r1 n
+  · intro n hn; rw [t4 n ((r1 n).mpr hn)]; exact r5 n hn
+  · intro p hp hne
+    obtain ⟨p', hp', _, hmem⟩ := hsame' p hp
+    have hne' : p'.2 ≠ [] := hsc'.ne p' hp'
     exact hasSimplex_congr _ hmem (t5 p' hp' hne')
   · intro q hq
     rcases t7 q hq with ⟨h, _⟩ | ⟨_, p', hp', hf⟩
@@ -731,6 +803,16 @@ theorem hif_rt_sc (a : ANet) (hw : AWF a) (hc : a.cls = .sc) :
     · obtain ⟨p, hp, _, hm⟩ := hsame p' hp'
       rw [mem_subfaces] at hf
       exact ⟨p, hp, fun x hx => (hm x).mp (hf.1.subset hx)⟩
+  · intro p hp
+    obtain ⟨p', hp', hpe, hm⟩ := hsame' p hp
+    exact ⟨p', by rw [k1]; exact List.mem_append_left _ hp', hpe, hm⟩
+  · intro e he
+    rw [k2 e ((r2 e).mpr he)]; exact r6 e he
+  · intro hcl
+    have hk := k3 (hcl' hcl)
+    refine ⟨fun e => ?_, fun n e => ?_⟩
+    · unfold Net.edgeIds; rw [hk]; exact r2 e
+    · unfold Inc; rw [hk]; exact r3 n e
 
 /-! ### non-vacuity: concrete networks satisfy the hypotheses and the functions evaluate as expected -/
 
@@ -827,6 +909,75 @@ example : ∃ d r, toHypergraphDict exCast exANet = .ok d ∧ fromHypergraphDict
 example : (toHypergraphDict exCast { exANet with net := { nodes := [.int 1, .str "1"], edges := [] } }).toBool = false := by
   decide
 
+/-- attribute keys spelled like parameters of `add_node` / `add_edge`: the isolated node 9 carries the key `node`,
+    the empty edge `x` the keys `idx` and `members` (on the unrepaired readers each of them was a `TypeError`) -/
+def exKeys : ANet :=
+  { cls := .hg, net := { nodes := [.int 1, .int 2, .int 9], edges := [(.int 0, [.int 1, .int 2]), (.str "x", [])] },
+    nattr := fun n => if n = .int 9 then [("node", .sc (.int 3))] else if n = .int 1 then [("node", .sc (.str "r")), ("attr", .sc (.int 0))] else [],
+    eattr := fun e => if e = .str "x" then [("idx", .sc (.int 1)), ("members", .sc (.str "r"))] else [],
+    gattr := [("name", .sc (.str "foo"))] }
+
+example : AWF exKeys :=
+  ⟨by unfold Net.WF exKeys; decide, by unfold AttrsWF exKeys; decide,
+   by unfold AttrsWF exKeys; decide, by unfold AttrsWF exKeys Net.edgeIds; decide⟩
+example : (toHif exKeys).nodes =
+    [(.int 1, some [("node", .sc (.str "r")), ("attr", .sc (.int 0))]), (.int 9, some [("node", .sc (.int 3))])] := by decide
+example : (toHif exKeys).edges = [(.str "x", some [("idx", .sc (.int 1)), ("members", .sc (.str "r"))])] := by decide
+example : (fromHifU (toHif exKeys)).net.nodes = [.int 1, .int 2, .int 9] := by decide
+example : (fromHifU (toHif exKeys)).net.edges = [(.int 0, [.int 1, .int 2]), (.str "x", [])] := by decide
+example : (fromHifU (toHif exKeys)).nattr (.int 9) = [("node", .sc (.int 3))] := by decide
+example : (fromHifU (toHif exKeys)).nattr (.int 1) = [("node", .sc (.str "r")), ("attr", .sc (.int 0))] := by decide
+example : (fromHifU (toHif exKeys)).eattr (.str "x") = [("idx", .sc (.int 1)), ("members", .sc (.str "r"))] := by decide
+/-- the same through the standard dict, on the all-int variant `exKeysInt` (edge 5 is the empty edge) -/
+def exKeysInt : ANet := { exKeys with net := { nodes := [.int 1, .int 2, .int 9], edges := [(.int 0, [.int 1]), (.int 5, [])] },
+                                      eattr := fun e => if e = .int 5 then [("idx", .sc (.int 1)), ("members", .sc (.str "r"))] else [] }
+example : AWF exKeysInt :=
+  ⟨by unfold Net.WF exKeysInt; decide, by unfold AttrsWF exKeysInt exKeys; decide,
+   by unfold AttrsWF exKeysInt exKeys; decide, by unfold AttrsWF exKeysInt Net.edgeIds; decide⟩
+/-- evaluated with the finite stand-in casts (`decide` cannot run `toString` / `String.toInt?`, nor `mergeSort` on
+    two or more members) -/
+def exKeysRt : Option ANet :=
+  (toHypergraphDict exCast exKeysInt).toOption.bind (fun d => (fromHypergraphDict exUncastInt exUncastInt d).toOption)
+example : exKeysRt.map (·.net.nodes) = some [.int 1, .int 2, .int 9] := by decide
+example : exKeysRt.map (·.net.edges) = some [(.int 0, [.int 1]), (.int 5, [])] := by decide
+example : exKeysRt.map (·.nattr (.int 9)) = some [("node", .sc (.int 3))] := by decide
+example : exKeysRt.map (·.eattr (.int 5)) = some [("idx", .sc (.int 1)), ("members", .sc (.str "r"))] := by decide
+/-- … and with the driver's own casts through `hypergraphDict_rt_int_str` (all its hypotheses hold) -/
+example : ∃ d r, toHypergraphDict strCast exKeysInt = .ok d ∧ fromHypergraphDict uncastInt uncastInt d = .ok r ∧
+    r.net.nodes = [.int 1, .int 2, .int 9] ∧ r.nattr (.int 9) = [("node", .sc (.int 3))] ∧
+    r.eattr (.int 5) = [("idx", .sc (.int 1)), ("members", .sc (.str "r"))] := by
+  obtain ⟨d, r, h1, h2, h3, _, _, _, h7, h8⟩ := hypergraphDict_rt_int_str .int .int exKeysInt
+    ⟨by unfold Net.WF exKeysInt; decide, by unfold AttrsWF exKeysInt exKeys; decide,
+     by unfold AttrsWF exKeysInt exKeys; decide, by unfold AttrsWF exKeysInt Net.edgeIds; decide⟩
+    (by unfold exKeysInt; intro x hx
+        simp only [List.mem_cons, List.not_mem_nil, or_false] at hx
+        rcases hx with rfl | rfl | rfl <;> exact ⟨_, rfl⟩)
+    (by unfold exKeysInt Net.edgeIds; intro x hx
+        simp only [List.map_cons, List.map_nil, List.mem_cons, List.not_mem_nil, or_false] at hx
+        rcases hx with rfl | rfl <;> exact ⟨_, rfl⟩)
+  refine ⟨d, r, h1, h2, h3, ?_, ?_⟩
+  · rw [h7 (.int 9) (by unfold exKeysInt; decide)]; decide
+  · rw [h8 (.int 5) (by unfold exKeysInt Net.edgeIds; decide)]; decide
+
+/-- a stored simplicial complex: the triangle t = {1, 2, 3} with its three edges (one of them carrying an
+    attribute) and the isolated node 4 -/
+def exSC : ANet :=
+  { cls := .sc, net := { nodes := [.int 1, .int 2, .int 3, .int 4],
+                         edges := [(.str "t", [.int 1, .int 2, .int 3]), (.int 0, [.int 1, .int 2]), (.int 1, [.int 2, .int 3]),
+                                   (.int 2, [.int 1, .int 3])] },
+    nattr := fun _ => [], eattr := fun e => if e = .int 1 then [("w", .sc (.int 2))] else [], gattr := [("name", .sc (.str "tri"))] }
+
+example : SCWF exSC.net := ⟨by unfold exSC; decide, by unfold exSC; decide⟩
+example : SCClosed exSC.net := by unfold SCClosed exSC; decide
+/-- … and without the edge {2, 3} it is still `SCWF` but not closed -/
+example : ¬ SCClosed { exSC.net with edges := [(.str "t", [.int 1, .int 2, .int 3]), (.int 0, [.int 1, .int 2])] } := by
+  unfold SCClosed; decide
+example : (toHif exSC).incs.length = 9 := by decide
+example : (toSimplicialComplex (fromHifU (toHif exSC))).net.edges =
+    [(.str "t", [.int 1, .int 2, .int 3]), (.int 0, [.int 1, .int 2]), (.int 1, [.int 2, .int 3]), (.int 2, [.int 1, .int 3])] := by
+  decide
+example : (toSimplicialComplex (fromHifU (toHif exSC))).eattr (.int 1) = [("w", .sc (.int 2))] := by decide
+
 /-- class conversion to a simplicial complex: the multi-edge and the empty edge disappear, faces are added -/
 def exTri : ANet :=
   { cls := .hg, net := { nodes := [.int 1, .int 2, .int 3, .int 4],
@@ -850,5 +1001,14 @@ example : (fromBipartiteEdgelistDi (toBipartiteEdgelistDi exDi)).edges =
 example : (dFlat exDi).edges = [(.int 0, [.int 1, .int 2, .int 3]), (.int 7, [.int 1, .int 3]), (.int 5, [])] := by decide
 example : (fromBipartiteGraphDi (toBipartiteGraphDi exDi).G).toOption.map (·.edges) =
     some [(.int 4, [.int 0, .int 1], [.int 2]), (.int 5, [.int 0], [.int 0, .int 2])] := by decide
+/-- `fromBipartiteGraphDi_perm`: the graph of `exDi` with its vertex list and its arc list reversed satisfies the
+    hypotheses and reads as the same edges (up to the order of edges and members) -/
+def exDiG : BGraph := (toBipartiteGraphDi exDi).G
+def exDiG' : BGraph := { exDiG with verts := exDiG.verts.reverse, edges := exDiG.edges.reverse }
+example : GWF exDiG := by unfold GWF exDiG exDi; decide
+example : exDiG.verts.Perm exDiG'.verts := (List.reverse_perm _).symm
+example : ∀ u v, (u, v) ∈ exDiG.edges ↔ (u, v) ∈ exDiG'.edges := fun u v => by simp [exDiG']
+example : (fromBipartiteGraphDi exDiG').toOption.map (·.edges) =
+    some [(.int 5, [.int 0], [.int 2, .int 0]), (.int 4, [.int 1, .int 0], [.int 2])] := by decide
 
 end Xgi.C10
